@@ -16,10 +16,10 @@ def shape_class(nodes):
     return kinds
 
 
-def run_plain(world, case, cfg=None, ctx=None, layout=0):
+def run_plain(world, case, cfg=None, ctx=None, layout=0, rename_frags=False, reverse_defs=False):
     """execute the case's request without gates; returns (response, CaseState, DocText)"""
     eng = world.engine(cfg)
-    doc = render.DocText(case["nodes"], layout=layout)
+    doc = render.DocText(case["nodes"], layout=layout, rename_frags=rename_frags, reverse_defs=reverse_defs)
     cs = CaseState(table_of(case["calls"]))
     world.case = cs
     ctx = ctx if ctx is not None else {"ctx": id(cs)}
